@@ -1,5 +1,6 @@
 import OsloPolicy.Proofs.Loader
 import OsloPolicy.Proofs.Layers
+import OsloPolicy.Proofs.LoaderReg
 /-
 C10 — a long-lived enforcer always decides as a freshly started one would.
 State-machine refinement: the mtime-cached loader (`load`) refines "compute from the
@@ -55,6 +56,28 @@ theorem vanished_main (enforceNew : Bool) (regs : List RuleDefault) (w : World)
         ((dirLayers w.fs.dirs).foldl updStore []) := by
   rw [Inv_load_fresh enforceNew regs w h]
   simp [compute, filesStore, filesRules, fileLayers, hgone]
+
+/-- **C10 for a service that registers defaults as it goes.** Histories may also contain
+`register_default` calls (a duplicate name raises and changes nothing): after any such history the
+next load yields what a brand-new enforcer holding all defaults registered so far computes from the
+current files — a default registered after the rules were first loaded is not lost. -/
+theorem history_with_registration (enforceNew : Bool) (regs0 : List RuleDefault) (fs0 : FS) (clock0 : Nat)
+    (hst : FS.Stamped fs0 clock0) (ops : List OpR) :
+    let w := ops.foldl (stepR enforceNew) ⟨⟨fs0, Enf.init fs0.dirs.length, clock0⟩, regs0⟩
+    (load enforceNew w.regs w.world.enf w.world.fs false).rules = (fresh enforceNew w.regs w.world.fs).rules :=
+  historyR_fresh enforceNew regs0 fs0 clock0 hst ops
+
+/-- … in particular: register some defaults, load, register the rest, load again — the result is the
+effective policy for all of them (C09's layers), whatever the files are. -/
+theorem late_registration (enforceNew : Bool) (r1 r2 : List RuleDefault) (fs : FS) (clock : Nat)
+    (hst : FS.Stamped fs clock) :
+    (load enforceNew (r1 ++ r2) (load enforceNew r1 (Enf.init fs.dirs.length) fs false) fs false).rules =
+      compute enforceNew (r1 ++ r2) fs := by
+  have h0 := Inv_init enforceNew r1 fs clock hst
+  have h1 := Inv_step enforceNew r1 _ .load h0
+  have h2 := Inv_register enforceNew r1 r2 _ h1
+  have h3 := Inv_load_fresh enforceNew (r1 ++ r2) _ h2
+  simpa only [step] using h3
 
 /-! Non-vacuity: the empty file system at clock 0 is stamped, so histories exist. -/
 example : FS.Stamped ⟨none, [some ⟨1, []⟩, none]⟩ 1 := by
